@@ -3,6 +3,7 @@ package c06list
 import (
 	"fmt"
 	"testing"
+	"time"
 
 	"github.com/bradenaw/juniper/container/xlist"
 	"pgregory.net/rapid"
@@ -12,7 +13,7 @@ import (
 
 var suite = vk.NewSuite("C06")
 
-func TestMain(m *testing.M) { suite.Main(m) }
+func TestMain(m *testing.M) { suite.HangLimit = 60 * time.Second; suite.Main(m) }
 
 // Op: Node and Mark are chosen by class relative to the model; A, B are raw indices (mod len).
 type Op struct {
